@@ -31,7 +31,7 @@ def run(ctx: Ctx) -> Result:
     histories = []
     for it in range(ctx.n(60, 600)):
         n = rng.choice([2, 2, 3, 4, 5, 8])
-        seed = rng.choice([V.rbytes(rng, rng.choice([1, 3, 16, 32])), b'', None, b'fixed-seed', b'fixed-seed'])
+        seed = rng.choice([V.rbytes(rng, rng.choice([1, 3, 16, 32, 33, 40, 64, 100])), b'', None, b'fixed-seed', b'fixed-seed', b'route-prefix-of-thirty-two-bytes!' + bytes([rng.randrange(4)]), b'route-prefix-of-thirty-two-bytes!' + V.rbytes(rng, 8)])
         histories.append((n, seed))
     prev_by_seed = {}
     for n, seed in histories:
@@ -66,6 +66,24 @@ def run(ctx: Ctx) -> Result:
             for j in range(n):
                 if j != i - 1 and Y[j] != Y[i - 1] and A.verify_lock_key(Y[j], r): viol(f'released scalar for hop {i-1} opens hop {j}', inp, 'False', True)
             kk = r
+    # different seeds give unrelated chains: no scalar of one chain opens a lock of the other (also when the seeds share a long prefix)
+    pairs = [(b'route-prefix-of-thirty-two-bytes!' + b'\x00', b'route-prefix-of-thirty-two-bytes!' + b'\x01'), (b'a' * 40, b'a' * 41), (b'a' * 32, b'a' * 33),
+             (V.rbytes(rng, 31) + b'\x00', None)]
+    pairs = [(a, b if b is not None else a[:-1] + b'\x01') for a, b in pairs]
+    for sa_, sb_ in pairs:
+        n = rng.choice([2, 3, 5])
+        res.note_case(('two-chains', sa_, sb_, n))
+        (ya, Ya), (yb, Yb) = A.setup(n, sa_), A.setup(n, sb_)
+        inp = {'n': n, 'seed_a': sa_.hex(), 'seed_b': sb_.hex()}
+        if list(ya) == list(yb) or list(Ya) == list(Yb):
+            viol('two different seeds give the same chain', inp, 'different secrets', ya[0].hex()); continue
+        kb = A.setup_for((yb, Yb), n)[-1]
+        cum = 0
+        for j in range(n):
+            cum = (cum + int.from_bytes(yb[j], 'little')) % L
+            for i in range(n):
+                if A.verify_lock_key(Ya[i], cum.to_bytes(32, 'little')): viol(f'a cumulative scalar of another chain opens hop {i}', inp, 'False', True)
+        if A.verify_lock_key(Ya[n - 1], kb): viol('the final key of another chain opens the last lock', inp, 'False', True)
     # setup_amhl + adapters end to end
     for it in range(ctx.n(25, 250)):
         n = rng.choice([2, 3, 3, 4, 6])
